@@ -221,6 +221,18 @@ def run_batch(sh, ctx):
 					if rng.random() < 0.2:
 						lines.append('' if rng.random() < 0.5 else '   ')
 				lf.write_text('\n'.join(lines) + '\n')
+				if channel == 'listfile-rel' and ci % 2 == 0:
+					# the working directory holds files with the SAME relative names and OTHER genomes in them: list entries are relative to
+					# --ldir, never to the working directory
+					decoy = qw.dir / f'cwd{ci}'
+					decoy.mkdir(exist_ok=True)
+					from vf.oracles.fasta import write_fasta as _wfd
+					for f in batch:
+						(decoy / f['rel']).parent.mkdir(parents=True, exist_ok=True)
+						if not (decoy / f['rel']).exists():
+							_wfd(decoy / f['rel'], [bytes(rng.choice(b'ACGT') for _ in range(rng.randint(300, 900)))], gz=f['rel'].endswith('.gz'))
+					cwd = decoy
+					ctx.count('listfile_runs_with_same_named_decoys_in_cwd')
 				args += ['-l', lf, '--ldir', qw.qdir if channel == 'listfile-rel' or rng.random() < 0.5 else '/nonexistent-base-is-ignored-for-absolute' if False else qw.qdir]
 			elif channel == 'sigfile-create':
 				sf = qw.dir / f'q{ci}.gs'
